@@ -16,6 +16,7 @@ RULE = ('every generated model is rendered (reference layout + two random layout
         '`other`, expanded examples); every difference is a violation.  The closure/ordering invariants '
         '(vf/checks/c02inv.py) run on every accepted compile of this and of C01/C03.  distinct = distinct '
         '(declaration kind.attribute) cells compared x model features crossed')
+RULE += ' ' + 'Also compared: the order of examples, the namespaces recorded as imported for types and aliases, and namespace docs concatenated in file order (also when the files that carry them are permuted).'
 ASSUMPTIONS = ['the expectation is written from docs/lang_ref.rst and docs/json_serializer.rst',
                'docs of undocumented annotated fields ("... None") are unspecified and not compared']
 REQUIRED_COUNTERS = ['apis_compared', 'invariant_evals']
